@@ -1,6 +1,7 @@
 package dagutils
 
 import (
+	"bytes"
 	"context"
 	"fmt"
 	"path"
@@ -99,6 +100,7 @@ func ApplyChange(ctx context.Context, ds ipld.DAGService, nd *dag.ProtoNode, cs 
 // It only traverses links in the following cases:
 // 1. two node's links number are greater than 0.
 // 2. both of two nodes are ProtoNode.
+// 3. both nodes carry the same data.
 // Otherwise, it compares the cid and emits a Mod change object.
 func Diff(ctx context.Context, ds ipld.DAGService, a, b ipld.Node) ([]*Change, error) {
 	if a.Cid() == b.Cid() {
@@ -111,7 +113,7 @@ func Diff(ctx context.Context, ds ipld.DAGService, a, b ipld.Node) ([]*Change, e
 	linksA := a.Links()
 	linksB := b.Links()
 
-	if !okA || !okB || (len(linksA) == 0 && len(linksB) == 0) {
+	if !okA || !okB || (len(linksA) == 0 && len(linksB) == 0) || !bytes.Equal(cleanA.Data(), cleanB.Data()) {
 		return []*Change{{Type: Mod, Before: a.Cid(), After: b.Cid()}}, nil
 	}
 
